@@ -227,11 +227,21 @@ func drawC15(t *rapid.T) caseC15 {
 		if rapid.IntRange(0, 9).Draw(t, "dashname") == 0 {
 			base = rapid.SampledFrom(dashNames).Draw(t, "dname")
 		}
+		// a name that is nothing but a dash plus a suffix: its target is the
+		// file "-" (as an operand "-" means standard input, so a member of
+		// that very name is never made at setup)
+		bare := rapid.IntRange(0, 29).Draw(t, "baredash") == 0
 		switch f.Kind {
 		case "gxz_xz", "xzutils_xz", "corrupt_xz", "trunc_xz", "text":
 			base = strings.TrimSuffix(strings.TrimSuffix(base, ".xz"), ".lzma") + rapid.SampledFrom([]string{".xz", ".xz", ".xz", ".txz", "", ".dat"}).Draw(t, "sfx")
+			if bare {
+				base = "-" + rapid.SampledFrom([]string{".xz", ".xz", ".txz"}).Draw(t, "baresfx")
+			}
 		case "gxz_lzma", "xzutils_lzma", "trunc_lzma":
 			base = strings.TrimSuffix(strings.TrimSuffix(base, ".xz"), ".lzma") + rapid.SampledFrom([]string{".lzma", ".lzma", ".lzma", ".tlz", "", ".dat"}).Draw(t, "sfx")
+			if bare {
+				base = "-" + rapid.SampledFrom([]string{".lzma", ".lzma", ".tlz"}).Draw(t, "baresfx")
+			}
 		}
 		if used[base] {
 			continue
@@ -418,7 +428,9 @@ func drawC15(t *rapid.T) caseC15 {
 			}
 			for _, s := range []string{".xz", ".lzma"} {
 				cur[n+s] = true
-				if strings.HasSuffix(n, s) {
+				if strings.HasSuffix(n, s) && strings.TrimSuffix(n, s) != "-" {
+					// (a file named "-" cannot be addressed: the operand means
+					// standard input)
 					cur[strings.TrimSuffix(n, s)] = true
 				}
 			}
